@@ -9,6 +9,9 @@ def run(ctx):
     # T: random environment schedules in synctest bubbles (each repeated: the winning arm of a
     #    multi-ready select is the runtime's choice); Trace_Pipe = linearizability + quiescence
     bubble_tv(ctx, "TestPipe", "pipe", "Trace_Pipe", "tv.cfg", "pipe", {"n": ctx.pick(120, 1200), "reps": ctx.pick(4, 8)})
+    # the same schedules with every statement of the library a seeded yield point (GOMAXPROCS=1): overtakings the Go
+    # scheduler does not produce by itself
+    bubble_tv(ctx, "TestPipe", "pipe", "Trace_Pipe", "tv.cfg", "pipe perturbed", {"n": ctx.pick(120, 1200), "reps": ctx.pick(3, 6)}, perturb=True)
     ctx.assumptions += ["the runtime's choice among ready select arms cannot be forced; schedules are repeated and every run is judged",
                         "a sender's calls are sequential; the receiver is a single consumer"]
 
